@@ -161,6 +161,13 @@ def compare(r, requested):
         if supplied and c.missing.get(dep) is None:
             out.append(('C06', 'waiter-never-released', f'input {dep} is supplied and valid on the final store, yet {sorted(set(waiters))[:4]} are still reported as waiting for it'))
             break
+    # C04 -- a successful solution holds every required line of every participating form
+    if r.verdict:
+        for fname, f in sorted(r.solver.forms.items()):
+            lost = [fl.name() for fl in f.required_fields() if fl.name() not in r.values]
+            if lost:
+                out.append(('C04', 'successful-solution-lacks-required-line', f'solve() returned True but required lines {lost[:4]} of {fname} have no value'))
+                break
     # C04 -- key set and form set
     have, want = set(r.values), set(c.values)
     if have - want:
